@@ -18,15 +18,20 @@ def setup():
     import os
 
     rc = 0
+    import shutil
+
+    scratch = os.path.join(T.BUILD, "sany-tmp")      # (the parser unpacks the standard modules into java.io.tmpdir on every start)
+    os.makedirs(scratch, exist_ok=True)
     for name in sorted(os.listdir(T.SPEC)):
         if name.endswith(".tla"):
-            p = subprocess.run(["java", "-cp", T.JAR + ":/opt/veriftools/tla/CommunityModules-deps.jar", "tla2sany.SANY",
+            p = subprocess.run(["java", "-Djava.io.tmpdir=" + scratch, "-cp", T.JAR + ":/opt/veriftools/tla/CommunityModules-deps.jar", "tla2sany.SANY",
                                 os.path.join(T.SPEC, name)], capture_output=True, text=True, cwd=T.SPEC)
             ok = p.returncode == 0 and "rror" not in p.stdout.split("Semantic processing")[-1]
             print("sany %-22s %s" % (name, "ok" if ok else "FAILED"))
             if not ok:
                 print(p.stdout[-2000:])
                 rc = 2
+    shutil.rmtree(scratch, ignore_errors=True)
     for c in m1_ops.configs("quick"):
         s = m1_ops.run_model(c)
         print("tlc  %-22s generated=%d distinct=%d cached=%s %.1fs" % (c["name"], s["generated"], s["distinct"], s["cached"], s["wall_s"]))
